@@ -76,7 +76,7 @@ if cfg.get("watch"):
 with open(os.path.join(d, "argv.log"), "a", encoding="utf-8", errors="surrogateescape") as f:
     f.write(json.dumps(rec) + "\n")
 
-if k in cfg.get("fail", []):
+if k in cfg.get("fail", []) or any(sub in argv for sub in cfg.get("fail_argv", [])):
     sys.stderr.write("fakevcs: forced failure of %s\n" % k)
     sys.exit(1)
 out = ""
